@@ -71,8 +71,19 @@ def check_spec(sp, labels, res, tmpdir, precision, reuse=False):
         return
     s0 = roundtrip.snapshot(esc, epps)
     fn = os.path.join(tmpdir, f"f{os.getpid()}.xml")
+    scenario_only = sum(map(ord, "".join(labels))) % 7 == 3
     try:
-        roundtrip.write(sc, pps, FMT, fn, precision)
+        if scenario_only:
+            # every 7th spec (fixed by its labels) goes through the other entry point, write_scenario_to_file, and another writer with another
+            # decimal precision is constructed between this writer's construction and its use; only the scenario part is compared
+            from commonroad.common.file_writer import CommonRoadFileWriter, OverwriteExistingFile
+            from commonroad.common.util import FileFormat
+            w = CommonRoadFileWriter(sc, pps, sc.author, sc.affiliation, sc.source, sc.tags, sc.location, decimal_precision=precision, file_format=FileFormat.XML)
+            CommonRoadFileWriter(esc, epps, "x", "y", "z", esc.tags, decimal_precision=2 if precision != 2 else 9, file_format=FileFormat.XML)
+            w.write_scenario_to_file(fn, OverwriteExistingFile.ALWAYS)
+            case = dict(case, entry="write_scenario_to_file")
+        else:
+            roundtrip.write(sc, pps, FMT, fn, precision)
     except Exception as e:
         res.violation(f"C01|write|raises:{type(e).__name__}:{c02._san(e)}", f"{labels} d={precision}: {e!r}", case)
         return
@@ -82,6 +93,8 @@ def check_spec(sp, labels, res, tmpdir, precision, reuse=False):
         res.violation(f"C01|read|raises:{type(e).__name__}:{c02._san(e)}", f"{labels} d={precision}: {e!r}", case)
         return
     s1 = roundtrip.snapshot(sc2, pps2)
+    if scenario_only:
+        s0 = dict(s0, pps={}); s1 = dict(s1, pps={})
     seen = set()
     for path, kind, detail in roundtrip.compare(s0, s1, FMT, precision):
         p, k = roundtrip.classify(path, kind)
